@@ -18,6 +18,47 @@ DRVNOTE = (TB + "Hypotheses used as axioms (not proved here): the LR(0)-automato
        "is not modelled. Literature lemma (stated, not mechanised): a shift-reduce run whose every reduction pops rhs(r) and pushes lhs(r) is a reversed rightmost derivation. "
        "The TypeScript driver string is not verified (only the numbers the Go code emits into it).")
 claimed = {
+ "C03": dict(
+   text="Deductive proof, on the real relation builders, of the DeRemer-Pennello side conditions: every pair returned by CalcLookbacks satisfies "
+        "p --rhs--> q and every pair returned by CaclIncludeRelation satisfies B -> beta A gamma, gamma nullable, p' --beta--> p, stated with the spec "
+        "functions spec_step / spec_walk that the helper (*LALR1).walk is proved to compute; seqenceCanEpsilon == all symbols nullable; fetchTransIndex "
+        "finds a transition iff one exists. The check found that both relations ignored the path condition (SLR-like lookaheads), now fixed. The composition "
+        "(Digraph/Traverse/Union, CalcDR, reads) and the exactness of the final lookahead sets are covered by a BOUNDED stand-in that compares every lookahead "
+        "set with the LALR(1) set obtained by merging canonical LR(1) states, on fixed and pseudo-random grammars.",
+   note=TB + "Proved: soundness direction of lookback / includes (no pair without its path condition), walk, fetchTransIndex, seqenceCanEpsilon, fetchReduceTransistor. "
+        "Axioms STEP/WALK0/WALKS define spec_step/spec_walk over the transition list (consistent under the determinism clause of wfTrans). NOT proved deductively "
+        "(bounded stand-in, <= 3 nonterminals, <= 3 terminals, <= 5 rules, 400 grammars quick / 20000 thorough + 9 fixed): completeness of the relations, CalcDR, "
+        "reads, Digraph/Traverse/Union, and the DeRemer-Pennello theorem itself (literature). The conflict-warning part of C03 rests on CheckAndResolveConflict's "
+        "contract (C04). wfTrans (shape of the transition list) is a precondition, BuildTrans is not yet under contract.",
+   design="§5 C03, Appendix A.4", technique="contract-based deductive verification of the relation builders + bounded run-time contract evaluation for Digraph"),
+ "C11": dict(
+   text="Deductive proof on the real code that (a) a character literal is numbered by its first rune in all three parser sites (found: first byte, fixed), "
+        "(b) astDeclareVistor.Process keeps idMaxValue above every value in the identifier table through all declaration loops, keeps explicit values, and "
+        "hands out automatic codes that are above the old maximum (hence different from explicit / literal codes and from -1) and pairwise different, "
+        "(c) both builders emit `const NAME = Value` from the table entry of a terminal.",
+   note=TB + "Trusted contracts: parser.next/backup/expect (token cursor; a character token has a non-empty lexeme), SortedIdNames (returns the keys), "
+        "utf8.DecodeRuneInString. Interior pointers &IdentifyList[i] are modelled as fresh objects holding a copy (the slice element is never read again). "
+        "Not yet under contract: the copy of the values into grammar symbols (BuildLALR1) and the translate switch (buildTranslate).",
+   design="§5 C11", technique="contract-based deductive verification (govc VC generator + SMT)"),
+ "C13": dict(
+   text="The closed-channel step of the lexer/parser protocol is proved: (*lexer).nextToken returns the k-th token sent while the channel is open and an EOF "
+        "token once the lexer has closed it (the check found that it returned a zero Token, on which no parser loop stops: `%start` hung; fixed). Termination of "
+        "the whole parse is covered by a BOUNDED stand-in only: every input of up to 3 fragments from a 14-fragment alphabet is parsed under a watchdog.",
+   note=TB + "Assumption A-seq (unbuffered channel, one sender, one receiver). NOT proved deductively: the decreases measures of the parser loops and of the lexer's "
+        "scanning loops and state machine (bounded stand-in: 2954 inputs); the lexer's unterminated-comment loop never exits but blocks on its send once the parser stops.",
+   design="§5 C13, Appendix A.5", technique="contract-based deductive verification of the channel-receive step + bounded run-time stand-in for loop termination"),
+ "C14": dict(
+   text="Every `range` over a map in the 100+ functions reachable from TemplateGenFromString / TsGenFromString (computed from the real call graph on every "
+        "run) must be justified in a contract: swap commutation (body(k1);body(k2) and body(k2);body(k1) yield the same state, for every state and all "
+        "k1 != k2 - an SMT obligation generated from the real loop body, e.g. GenTable's cell loop), uniqueness of the loop's proved postcondition "
+        "(PackTable's output loop), an explicit listed assumption, or an exemption for debug printing; a reachable map range without justification, a "
+        "select, a goroutine outside the lexer, time/rand/unsafe or %p is a failed obligation. The check found the five order-dependent sites "
+        "(auto-numbering, symbol numbering, state numbering, default action ties, constant block), now fixed.",
+   note=TB + "Listed assumptions: the relation/worklist slices built from DRSet/ReadSet are used as sets only (Digraph-spec hypothesis), "
+        "CheckAndResolveConflict's per-cell loop touches only its own cell, CalculateCanTerminate's result is used for emptiness only, SortedIdNames "
+        "returns the sorted keys (sort.Strings assumed correct), debug Show* functions print to stdout only. The lexer goroutine is deterministic under "
+        "assumption A-seq (unbuffered channel, one sender, one receiver). text/template and fmt are assumed deterministic.",
+   design="§5 C14", technique="contract-based verification: order-independence obligations (swap commutation / post uniqueness) per map loop + reachability scan"),
  "C01": dict(
    text=DRV + "C01: every loop iteration consults T(top state, lookahead); a reduction by r is taken only when the top |rhs r| stack symbols are rhs(r) (lemma L, "
         "proved by induction as two SMT queries) and pushes (goto(top', lhs r), lhs r); accept only in configuration [0, goto(0,S)] on the end marker; "
